@@ -9,15 +9,30 @@
 //@insert file=src/engine/core/event/event_id.rs loop=wait_next_millis#1
 //| #[cfg_attr(kani, kani::loop_invariant(true))]
 //@end
+//@insert file=src/engine/core/event/event_id.rs struct=EventIdGenerator
+//| #[cfg_attr(kani, derive(kani::Arbitrary))]
+//@end
+//@insert file=src/engine/core/event/event_id.rs struct=EventId
+//| #[cfg_attr(kani, derive(kani::Arbitrary))]
+//@end
+//@insert file=src/engine/core/event/event_id.rs fn=EventIdGenerator::next
+//| #[cfg_attr(kani, kani::requires(self.sequence <= 0xFFF))]
+//| #[cfg_attr(kani, kani::modifies(self))]
+//| #[cfg_attr(kani, kani::ensures(|r: &EventId| (self.last_millis > old(self.last_millis) || (self.last_millis == old(self.last_millis) && self.sequence > old(self.sequence))) && self.sequence <= 0xFFF && r.raw() == __verif_c18_event_id::pack(self.last_millis, shard_id, self.sequence)))]
+//@end
 //@function src/engine/core/event/event_id.rs::next
 //@function src/engine/core/event/event_id.rs::wait_next_millis
 //@harness name=next_contract kind=complete tier=quick timeout=120 stubs=yes
+//@harness name=next_function_contract kind=complete tier=quick timeout=900 stubs=yes contract=C18.event_id.next.function_contract
+//@harness name=successive_calls_against_contract kind=complete tier=quick timeout=900
 //@harness name=wait_next_millis_contract kind=complete tier=quick timeout=120 stubs=yes
 //@obligation C18.event_id.next.state_strictly_increases : (last_millis, sequence) increases lexicographically on every call, for every clock reading
 //@obligation C18.event_id.next.sequence_in_range : sequence stays within 12 bits
 //@obligation C18.event_id.next.pack_layout : raw == (millis-EPOCH)&(2^42-1) << 22 | (shard & 0x3ff) << 12 | sequence
 //@obligation C18.event_id.next.raw_strictly_increases : within the 42-bit clock window and shard < 1024 the new raw id exceeds the id the previous state stood for
 //@obligation C18.event_id.next.shard_bits : bits 12..22 of the id equal the shard id
+//@obligation C18.event_id.next.function_contract : Kani function contract on the real method (requires sequence <= 0xFFF; modifies *self; ensures state strictly increases lexicographically, sequence <= 0xFFF, id == pack(state, shard)) proved with proof_for_contract for every state, shard and clock reading
+//@obligation C18.event_id.successive_calls_increase : a caller making two successive calls, checked against the CONTRACT of next only (stub_verified), gets strictly increasing ids with the same shard tag inside the clock window
 //@obligation C18.event_id.wait_next_millis.result_after_last : the value returned is strictly greater than `last` (partial correctness)
 
     fn clock_any() -> u64 {
@@ -33,7 +48,7 @@
 
     const EPOCH: u64 = 1_609_459_200_000;
 
-    fn pack(millis: u64, shard: u16, seq: u16) -> u64 {
+    pub fn pack(millis: u64, shard: u16, seq: u16) -> u64 {
         ((millis.saturating_sub(EPOCH) & ((1u64 << 42) - 1)) << 22)
             | (((shard as u64) & 0x3ff) << 12)
             | (seq as u64)
@@ -64,6 +79,32 @@
     }
 
     fn no_yield() {}
+
+    #[kani::proof_for_contract(EventIdGenerator::next)]
+    #[kani::stub(current_millis, clock_any)]
+    #[kani::stub(wait_next_millis, wait_stub)]
+    fn next_function_contract() {
+        let mut g: EventIdGenerator = kani::any();
+        let shard: u16 = kani::any();
+        let _ = g.next(shard);
+        kani::cover!(g.sequence == 0, "COVER:sequence_reset");
+    }
+
+    /// caller-level step checked against the callee's contract, not its body
+    #[kani::proof]
+    #[kani::stub_verified(EventIdGenerator::next)]
+    fn successive_calls_against_contract() {
+        let mut g: EventIdGenerator = kani::any();
+        let shard: u16 = kani::any();
+        kani::assume(g.sequence <= 0xFFF && shard < 1024 && g.last_millis >= EPOCH);
+        let a = g.next(shard);
+        let b = g.next(shard);
+        kani::cover!(b.raw() > a.raw(), "COVER:reachable");
+        if g.last_millis < EPOCH + (1u64 << 42) {
+            assert!(b.raw() > a.raw() && (a.raw() >> 12) & 0x3ff == shard as u64 && (b.raw() >> 12) & 0x3ff == shard as u64,
+                "OBL:C18.event_id.successive_calls_increase");
+        }
+    }
 
     #[kani::proof]
     #[kani::stub(current_millis, clock_any)]
